@@ -1,63 +1,94 @@
 /-
-C18, text level, part A4: for a safe well-formed value, `preprocess (marshal v)` is the
-JSON text `marshalP v` in which every wrapper is spelled out as an object.
-Core Lean only.
+C18, text level, part A4 (pre-pass of /repo commit 0cf3884e): `preprocess (marshal v)` is
+the JSON text `marshalP v` in which every wrapper is spelled out as an object.  String
+literals need no condition at all; only object keys (printed raw by `Marshal`) and date
+payloads must not contain a quote or a backslash.  Core Lean only.
 -/
 import YorkieModel.Lemmas.YsonPieces
 namespace Yorkie.Yson
 
-/-- `s` is rewritten to `s'` by the pre-pass, and the pre-pass starts afresh after it -/
-structure PP (s s' : Str) : Prop where
-  dist : Dist s
-  eq : preprocess s = s'
+/-- `s` is rewritten to `s'` by the pre-pass, which is then outside a literal again with
+nothing pending -/
+abbrev PP (s s' : Str) : Prop := Good s s'
 
-theorem PP.append {a a' b b' : Str} (ha : PP a a') (hb : PP b b') : PP (a ++ b) (a' ++ b') :=
-  ⟨ha.dist.append hb.dist, by rw [ha.dist b, ha.eq, hb.eq]⟩
+theorem PP.append {a a' b b' : Str} (ha : PP a a') (hb : PP b b') : PP (a ++ b) (a' ++ b') := Good.append ha hb
+theorem PP.nil : PP [] [] := Good.nil
+theorem PP.eq {a a' : Str} (h : PP a a') : preprocess a = a' := Good.eq h
 
-theorem PP.inert {s : Str} (h : inertAll s = true) : PP s s :=
-  ⟨(dist_of_inert h).1, (dist_of_inert h).2⟩
+def noQuote (s : Str) : Bool := s.all (· != 34)
 
-theorem PP.piece {s s' : Str} (h : pieceOK s = true) (he : applyReplacements replacements s = s') : PP s s' :=
-  ⟨(dist_of_pieceOK h).1, by rw [(dist_of_pieceOK h).2, he]⟩
+theorem noQuote_spec {s : Str} (h : noQuote s = true) : ∀ c ∈ s, c ≠ 34 := fun c hc => by
+  simpa using (List.all_eq_true.mp h) c hc
 
-theorem PP.nil : PP [] [] := ⟨Dist.nil, rfl⟩
+/-- a piece between literals that no pass touches -/
+theorem PP.inert {s : Str} (hq : noQuote s = true) (h : inertAll s = true) : PP s s :=
+  Good.outside (noQuote_spec hq) (dist_of_inert h).1 (dist_of_inert h).2
+
+/-- a piece between literals, rewritten by the ReplaceAll passes -/
+theorem PP.piece {s s' : Str} (hq : noQuote s = true) (h : pieceOK s = true)
+    (he : applyReplacements replacements s = s') : PP s s' :=
+  Good.outside (noQuote_spec hq) (dist_of_pieceOK h).1 (by rw [(dist_of_pieceOK h).2, he])
+
+/-- a constant string literal -/
+theorem PP.name {k : Str} (h : litBody k = true) : PP (34 :: (k ++ [34])) (34 :: (k ++ [34])) := Good.strLit h
+
+theorem PP.of_eq {a b : Str} (e : a = b) (h : PP b b) : PP a a := e ▸ h
 
 /-! ### closed pieces -/
 
-theorem pp_null : PP cp%"null" cp%"null" := PP.inert (by decide)
-theorem pp_true : PP cp%"true" cp%"true" := PP.inert (by decide)
-theorem pp_false : PP cp%"false" cp%"false" := PP.inert (by decide)
-theorem pp_comma : PP [44] [44] := PP.inert (by decide)
-theorem pp_colon : PP [58] [58] := PP.inert (by decide)
-theorem pp_lbrack : PP [91] [91] := PP.inert (by decide)
-theorem pp_rbrack : PP [93] [93] := PP.inert (by decide)
-theorem pp_lbrace : PP [123] [123] := PP.inert (by decide)
-theorem pp_rbrace : PP [125] [125] := PP.inert (by decide)
-theorem pp_val : PP cp%"{\"val\":" cp%"{\"val\":" := PP.inert (by decide)
-theorem pp_attrsOpen : PP cp%",\"attrs\":{" cp%",\"attrs\":{" := PP.inert (by decide)
-theorem pp_rbrace2 : PP cp%"}}" cp%"}}" := PP.inert (by decide)
-theorem pp_type : PP cp%"{\"type\":" cp%"{\"type\":" := PP.inert (by decide)
-theorem pp_value : PP cp%",\"value\":" cp%",\"value\":" := PP.inert (by decide)
-theorem pp_children : PP cp%",\"children\":[" cp%",\"children\":[" := PP.inert (by decide)
-theorem pp_childrenClose : PP cp%"]}" cp%"]}" := PP.inert (by decide)
-theorem pp_attrsChildren : PP cp%"},\"children\":[" cp%"},\"children\":[" := PP.inert (by decide)
+theorem pp_null : PP cp%"null" cp%"null" := PP.inert (by decide) (by decide)
+theorem pp_true : PP cp%"true" cp%"true" := PP.inert (by decide) (by decide)
+theorem pp_false : PP cp%"false" cp%"false" := PP.inert (by decide) (by decide)
+theorem pp_nan : PP cp%"NaN" cp%"NaN" := PP.inert (by decide) (by decide)
+theorem pp_posInf : PP cp%"+Inf" cp%"+Inf" := PP.inert (by decide) (by decide)
+theorem pp_negInf : PP cp%"-Inf" cp%"-Inf" := PP.inert (by decide) (by decide)
+theorem pp_comma : PP [44] [44] := PP.inert (by decide) (by decide)
+theorem pp_colon : PP [58] [58] := PP.inert (by decide) (by decide)
+theorem pp_lbrack : PP [91] [91] := PP.inert (by decide) (by decide)
+theorem pp_rbrack : PP [93] [93] := PP.inert (by decide) (by decide)
+theorem pp_lbrace : PP [123] [123] := PP.inert (by decide) (by decide)
+theorem pp_rbrace : PP [125] [125] := PP.inert (by decide) (by decide)
+theorem pp_rbrace2 : PP cp%"}}" cp%"}}" := PP.inert (by decide) (by decide)
+theorem pp_childrenClose : PP cp%"]}" cp%"]}" := PP.inert (by decide) (by decide)
 
-theorem pp_close : PP cp%")" cp%"}" := PP.piece (by decide) (by decide)
-theorem pp_int : PP cp%"Int(" cp%"{\"type\":\"Int\",\"value\":" := PP.piece (by decide) (by decide)
-theorem pp_long : PP cp%"Long(" cp%"{\"type\":\"Long\",\"value\":" := PP.piece (by decide) (by decide)
+theorem pp_val : PP cp%"{\"val\":" cp%"{\"val\":" :=
+  PP.of_eq (b := [123] ++ (34 :: (sVal ++ [34])) ++ [58]) (by decide)
+    ((pp_lbrace.append (PP.name (by decide))).append pp_colon)
+theorem pp_attrsOpen : PP cp%",\"attrs\":{" cp%",\"attrs\":{" :=
+  PP.of_eq (b := [44] ++ (34 :: (sAttrs ++ [34])) ++ cp%":{") (by decide)
+    ((pp_comma.append (PP.name (by decide))).append (PP.inert (by decide) (by decide)))
+theorem pp_type : PP cp%"{\"type\":" cp%"{\"type\":" :=
+  PP.of_eq (b := [123] ++ (34 :: (sType ++ [34])) ++ [58]) (by decide)
+    ((pp_lbrace.append (PP.name (by decide))).append pp_colon)
+theorem pp_value : PP cp%",\"value\":" cp%",\"value\":" :=
+  PP.of_eq (b := [44] ++ (34 :: (sValue ++ [34])) ++ [58]) (by decide)
+    ((pp_comma.append (PP.name (by decide))).append pp_colon)
+theorem pp_children : PP cp%",\"children\":[" cp%",\"children\":[" :=
+  PP.of_eq (b := [44] ++ (34 :: (sChildren ++ [34])) ++ cp%":[") (by decide)
+    ((pp_comma.append (PP.name (by decide))).append (PP.inert (by decide) (by decide)))
+theorem pp_attrsChildren : PP cp%"},\"children\":[" cp%"},\"children\":[" :=
+  PP.of_eq (b := cp%"}," ++ (34 :: (sChildren ++ [34])) ++ cp%":[") (by decide)
+    (((PP.inert (by decide) (by decide) : PP cp%"}," cp%"},").append (PP.name (by decide))).append
+      (PP.inert (by decide) (by decide)))
+
+theorem pp_close : PP cp%")" cp%"}" := PP.piece (by decide) (by decide) (by decide)
+theorem pp_int : PP cp%"Int(" cp%"{\"type\":\"Int\",\"value\":" := PP.piece (by decide) (by decide) (by decide)
+theorem pp_long : PP cp%"Long(" cp%"{\"type\":\"Long\",\"value\":" := PP.piece (by decide) (by decide) (by decide)
 theorem pp_counterInt : PP cp%"Counter(Int(" cp%"{\"type\":\"Counter\",\"value\":{\"type\":\"Int\",\"value\":" :=
-  PP.piece (by decide) (by decide)
+  PP.piece (by decide) (by decide) (by decide)
 theorem pp_counterLong : PP cp%"Counter(Long(" cp%"{\"type\":\"Counter\",\"value\":{\"type\":\"Long\",\"value\":" :=
-  PP.piece (by decide) (by decide)
-theorem pp_close2 : PP cp%"))" cp%"}}" := PP.piece (by decide) (by decide)
+  PP.piece (by decide) (by decide) (by decide)
+theorem pp_close2 : PP cp%"))" cp%"}}" := PP.piece (by decide) (by decide) (by decide)
 /-- `Text(` alone is a proper prefix of the pattern `Text()`; Marshal always prints `Text([` -/
-theorem pp_text : PP cp%"Text([" cp%"{\"type\":\"Text\",\"value\":[" := PP.piece (by decide) (by decide)
-theorem pp_textClose : PP cp%"])" cp%"]}" := PP.piece (by decide) (by decide)
-/-- likewise `Tree(` is always followed by the node's `{"type":` -/
+theorem pp_text : PP cp%"Text([" cp%"{\"type\":\"Text\",\"value\":[" := PP.piece (by decide) (by decide) (by decide)
+theorem pp_textClose : PP cp%"])" cp%"]}" := PP.piece (by decide) (by decide) (by decide)
+/-- likewise `Tree(` is always followed by the `{` of the root node -/
+theorem pp_treeOpen : PP cp%"Tree({" cp%"{\"type\":\"Tree\",\"value\":{" := PP.piece (by decide) (by decide) (by decide)
 theorem pp_tree : PP cp%"Tree({\"type\":" cp%"{\"type\":\"Tree\",\"value\":{\"type\":" :=
-  PP.piece (by decide) (by decide)
-theorem pp_bindata : PP cp%"BinData(\"" cp%"{\"type\":\"BinData\",\"value\":\"" := PP.piece (by decide) (by decide)
-theorem pp_date : PP cp%"Date(\"" cp%"{\"type\":\"Date\",\"value\":\"" := PP.piece (by decide) (by decide)
+  (PP.append pp_treeOpen ((PP.name (k := sType) (by decide)).append pp_colon) :
+    PP (cp%"Tree({" ++ ((34 :: (sType ++ [34])) ++ [58])) _)
+theorem pp_bindata : PP cp%"BinData(" cp%"{\"type\":\"BinData\",\"value\":" := PP.piece (by decide) (by decide) (by decide)
+theorem pp_date : PP cp%"Date(" cp%"{\"type\":\"Date\",\"value\":" := PP.piece (by decide) (by decide) (by decide)
 
 /-! ### the dedup-counter token -/
 
@@ -67,12 +98,6 @@ theorem takeDigits_append_stop : ∀ (ds : Str) (c : Nat) (Y : Str), ds.all isDi
   | d :: ds, c, Y, hd, hc => by
     simp only [List.all_cons, Bool.and_eq_true] at hd
     simp [takeDigits, hd.1, takeDigits_append_stop ds c Y hd.2 hc]
-
-theorem spanNotQuote_append_stop : ∀ (x Y : Str), (∀ c ∈ x, c ≠ 34) → spanNotQuote (x ++ 34 :: Y) = (x, 34 :: Y)
-  | [], Y, _ => by simp [spanNotQuote]
-  | a :: x, Y, h => by
-    have ha : (a == 34) = false := by simpa using h a (List.mem_cons_self)
-    simp [spanNotQuote, ha, spanNotQuote_append_stop x Y (fun c hc => h c (List.mem_cons_of_mem _ hc))]
 
 theorem showInt_eq (n : Int) : showInt n = (if n < 0 then [45] else []) ++ natDigits n.natAbs := by
   cases n with
@@ -99,63 +124,28 @@ theorem jSign_showInt (n : Int) (Y : Str) :
       · rfl
 
 theorem b64Char_ne_quote (n : Nat) : b64Char n ≠ 34 := by
-  simp only [b64Char]
-  split
-  · omega
-  · split
-    · omega
-    · split
-      · omega
-      · split <;> simp
+  have := b64Char_raw n
+  simp only [keyNeedsEscape, Bool.or_eq_false_iff, beq_eq_false_iff_ne] at this
+  exact this.1.1
 
-theorem b64Encode_no_quote (bs : List Nat) : ∀ c ∈ b64Encode bs, c ≠ 34 := by
-  induction bs using b64Encode.induct with
-  | case1 => simp [b64Encode]
-  | case2 a =>
-    intro x hx
-    simp only [b64Encode, List.mem_cons, List.not_mem_nil, or_false] at hx
-    rcases hx with rfl | rfl | rfl | rfl
-    · exact b64Char_ne_quote _
-    · exact b64Char_ne_quote _
-    · decide
-    · decide
-  | case3 a b =>
-    intro x hx
-    simp only [b64Encode, List.mem_cons, List.not_mem_nil, or_false] at hx
-    rcases hx with rfl | rfl | rfl | rfl
-    · exact b64Char_ne_quote _
-    · exact b64Char_ne_quote _
-    · exact b64Char_ne_quote _
-    · decide
-  | case4 a b c r ih =>
-    intro x hx
-    simp only [b64Encode, List.mem_cons] at hx
-    rcases hx with rfl | rfl | rfl | rfl | h
-    · exact b64Char_ne_quote _
-    · exact b64Char_ne_quote _
-    · exact b64Char_ne_quote _
-    · exact b64Char_ne_quote _
-    · exact ih x h
+theorem b64Encode_no_quote (bs : List Nat) : ∀ c ∈ b64Encode bs, c ≠ 34 :=
+  b64Encode_forall (P := fun c => c ≠ 34) b64Char_ne_quote (by decide) bs
 
-theorem b64Encode_ne_nil {bs : List Nat} (h : bs ≠ []) : b64Encode bs ≠ [] := by
-  match bs, h with
-  | [a], _ => simp [b64Encode]
-  | [a, b], _ => simp [b64Encode]
-  | a :: b :: c :: r, _ => simp [b64Encode]
+/-- what the regexp makes of the head `DedupCounter(Int(n),` -/
+def dedupHeadJ (n : Int) : Str :=
+  cp%"{\"type\":\"DedupCounter\",\"counterType\":\"Int\",\"value\":" ++ showInt n ++ cp%",\"hll\":"
 
-/-- what the regexp makes of the token -/
+/-- what the pre-pass makes of the whole token -/
 def dedupJ (n : Int) (regs : List Nat) : Str :=
   cp%"{\"type\":\"DedupCounter\",\"counterType\":\"Int\",\"value\":" ++ showInt n ++ cp%",\"hll\":\""
     ++ b64Encode regs ++ cp%"\"}"
 
-theorem dedupMatch_token (n : Int) (regs : List Nat) (hr : regs ≠ []) (b : Str) :
-    dedupMatch (marshalCounter (.dedup n regs) ++ b)
-      = some (showInt n, b64Encode regs, (marshalCounter (.dedup n regs)).length) := by
-  have h1 : marshalCounter (.dedup n regs) ++ b
-      = cp%"DedupCounter(Int(" ++ (showInt n ++ (41 :: 44 :: 34 :: (b64Encode regs ++ 34 :: 41 :: b))) := by
-    simp [marshalCounter]
+def dedupHeadText (n : Int) : Str := cp%"DedupCounter(Int(" ++ showInt n ++ cp%"),"
+
+theorem dedupHeadMatch_head (n : Int) : dedupHeadMatch (dedupHeadText n) = some (showInt n) := by
+  have h1 : dedupHeadText n = cp%"DedupCounter(Int(" ++ (showInt n ++ [41, 44]) := by simp [dedupHeadText]
   rw [h1]
-  simp only [dedupMatch, stripPrefix_append, jSign_showInt]
+  simp only [dedupHeadMatch, stripPrefix_append, jSign_showInt]
   have hds := natDigits_all n.natAbs
   have hne := natDigits_ne_nil n.natAbs
   rw [takeDigits_append_stop _ 41 _ hds (by decide)]
@@ -163,58 +153,67 @@ theorem dedupMatch_token (n : Int) (regs : List Nat) (hr : regs ≠ []) (b : Str
     cases hd : natDigits n.natAbs with
     | nil => exact absurd hd hne
     | cons => rfl
-  simp only [hne', Bool.false_eq_true, if_false]
-  have h2 : stripPrefix cp%"),\"" (41 :: 44 :: 34 :: (b64Encode regs ++ 34 :: 41 :: b))
-      = some (b64Encode regs ++ 34 :: 41 :: b) := stripPrefix_append cp%"),\"" _
-  rw [h2]
-  simp only [spanNotQuote_append_stop _ _ (b64Encode_no_quote regs)]
-  have hbe : (b64Encode regs).isEmpty = false := by
-    cases hb : b64Encode regs with
-    | nil => exact absurd hb (b64Encode_ne_nil hr)
-    | cons => rfl
-  simp only [hbe, Bool.false_eq_true, if_false]
+  simp [hne', showInt_eq]
+
+theorem showInt_quiet (n : Int) : (showInt n).all quietChar = true := by
   rw [showInt_eq]
-  simp [marshalCounter, showInt_eq]
-  omega
+  have := (digits_quiet (natDigits_all n.natAbs)).1
+  by_cases hn : n < 0 <;> simp [hn, this, quietChar]
 
-theorem dedup_token (n : Int) (regs : List Nat) (hr : regs ≠ []) (b : Str) :
-    dedupReplace 0 (marshalCounter (.dedup n regs) ++ b) = dedupJ n regs ++ dedupReplace 0 b := by
-  have hm := dedupMatch_token n regs hr b
-  have hcons : marshalCounter (.dedup n regs) ++ b = 68 :: ((marshalCounter (.dedup n regs)).tail ++ b) := by
-    simp [marshalCounter]
-  have hlen : (marshalCounter (.dedup n regs)).length - 1 = (marshalCounter (.dedup n regs)).tail.length := by
-    simp
-  rw [hcons]
-  simp only [dedupReplace]
-  rw [← hcons, hm]
-  simp only [hlen, dedupReplace_skip, dedupJ, List.append_assoc]
+theorem showInt_noQuote (n : Int) : noQuote (showInt n) = true := by
+  rw [showInt_eq]
+  have hd := natDigits_all n.natAbs
+  have : (natDigits n.natAbs).all (· != 34) = true :=
+    List.all_eq_true.mpr (fun c hc => by
+      have := (List.all_eq_true.mp hd) c hc
+      simp only [isDigit, Bool.and_eq_true, decide_eq_true_eq] at this
+      simp; omega)
+  by_cases hn : n < 0 <;> simp [hn, noQuote, this]
 
-theorem dedupJ_inert (n : Int) (regs : List Nat) : inertAll (dedupJ n regs) = true := by
+theorem dedupHeadJ_inert (n : Int) : inertAll (dedupHeadJ n) = true := by
   apply inert_of_quiet
-  · have h1 : (showInt n).all quietChar = true := by
-      rw [showInt_eq]
-      have := (digits_quiet (natDigits_all n.natAbs)).1
-      by_cases hn : n < 0 <;> simp [hn, this, quietChar]
-    simp only [dedupJ, List.all_append, h1, b64Encode_quiet, Bool.and_true]
+  · simp only [dedupHeadJ, List.all_append, showInt_quiet, Bool.and_true]
     decide
-  · simp only [dedupJ]
+  · simp only [dedupHeadJ]
     exact endsTerm_append (by simp) (by decide)
 
-theorem pp_dedup (n : Int) (regs : List Nat) (hr : regs ≠ []) :
-    PP (marshalCounter (.dedup n regs)) (dedupJ n regs) := by
-  have hi := dedupJ_inert n regs
+theorem tokens_dedupHead (n : Int) : preprocessTokens (dedupHeadText n) = dedupHeadJ n := by
+  have hi := dedupHeadJ_inert n
   simp only [inertAll, Bool.and_eq_true] at hi
   have hs := inert_stageSafe replacements _ hi.2
-  have h0 : dedupReplace 0 (marshalCounter (.dedup n regs)) = dedupJ n regs := by
-    have := dedup_token n regs hr []
-    simpa [dedupReplace] using this
-  have heq : preprocess (marshalCounter (.dedup n regs)) = dedupJ n regs := by
-    simp only [preprocess, h0, hs.2]
-  refine ⟨?_, heq⟩
-  intro b
-  rw [heq]
-  simp only [preprocess, dedup_token n regs hr b]
-  rw [applyReplacements_append replacements _ _ hs.1, hs.2]
+  have hcons : dedupHeadText n = 68 :: (dedupHeadText n).tail := by simp [dedupHeadText]
+  have hm := dedupHeadMatch_head n
+  have : dedupHead (dedupHeadText n) = dedupHeadJ n := by
+    rw [hcons]
+    simp only [dedupHead]
+    rw [← hcons, hm]
+    rfl
+  simp only [preprocessTokens, this, hs.2]
+
+/-- the whole token `DedupCounter(Int(n),"base64")` – also for empty registers -/
+theorem pp_dedup (n : Int) (regs : List Nat) : PP (marshalCounter (.dedup n regs)) (dedupJ n regs) := by
+  intro rest
+  have e : marshalCounter (.dedup n regs) ++ rest
+      = dedupHeadText n ++ (34 :: (b64Encode regs ++ 34 :: (41 :: rest))) := by
+    simp [marshalCounter, dedupHeadText]
+  have hq : ∀ c ∈ dedupHeadText n, c ≠ 34 := by
+    have := noQuote_spec (showInt_noQuote n)
+    intro c hc
+    simp only [dedupHeadText, List.mem_append] at hc
+    rcases hc with (hc | hc) | hc
+    · revert c; decide
+    · exact this c hc
+    · revert c; decide
+  rw [e, ppOut_noquote _ [] _ hq, List.nil_append]
+  simp only [ppOut, beq_self_eq_true, if_true]
+  rw [ppIn_lit _ _ (litBody_of_raw (b64_raw regs)), tokens_dedupHead]
+  have := pp_close rest
+  simp only [List.cons_append, List.nil_append] at this
+  rw [this]
+  simp [dedupJ, dedupHeadJ]
+
+/-- the key piece `"k":` -/
+def keyPiece (k : Str) : Str := [34] ++ k ++ [34, 58]
 
 /-! ### the text after the pre-pass -/
 
@@ -264,7 +263,8 @@ theorem pp_joinWith {sep : Str} (hsep : PP sep sep) : ∀ {l l' : List Str}, PPL
     cases h with
     | cons h1 h2 =>
       have ih := pp_joinWith hsep h2
-      simpa [joinWith] using (h1.append hsep).append ih
+      have := (PP.append (PP.append h1 hsep) ih)
+      simpa [joinWith] using this
   | [], _ :: _, h => by cases h
   | _ :: _, [], h => by cases h
   | [_], _ :: _ :: _, h => by
@@ -301,54 +301,74 @@ theorem mem_sortStrs {y : Str} : ∀ {l : List Str}, y ∈ sortStrs l ↔ y ∈ 
   | [] => by simp [sortStrs]
   | a :: r => by simp [sortStrs, mem_insertStr, mem_sortStrs (l := r)]
 
-/-! ### what `Atom.safe` says about strings and keys -/
+/-! ### what `Atom.safe` says about strings and keys (used by part B) -/
 
-theorem safe_qstr {s : Str} (h : Atom.safe (.qstr s) = true) :
-    prepassHits s = false ∧ s.any goOnlyEscape = false := by
+theorem safe_qstr {s : Str} (h : Atom.safe (.qstr s) = true) : s.any goOnlyEscape = false := by
   simpa [Atom.safe, Tag.all, Atom.hits] using h
 
-theorem safe_key {s : Str} (h : Atom.safe (.key s) = true) :
-    prepassHits s = false ∧ s.any keyNeedsEscape = false := by
+theorem safe_key {s : Str} (h : Atom.safe (.key s) = true) : s.any keyNeedsEscape = false := by
   simpa [Atom.safe, Tag.all, Atom.hits] using h
 
-theorem safe_dedup {regs : List Nat} (h : Atom.safe (.dedup regs) = true) : regs ≠ [] := by
-  have : regs.isEmpty = false := by simpa [Atom.safe, Tag.all, Atom.hits] using h
-  intro h0; simp [h0] at this
+/-! ### what part A needs: object keys and date payloads without quote or backslash.
+No condition on strings, text runs, attributes, tree node types and values. -/
 
-theorem pp_quote {s : Str} (h : Atom.safe (.qstr s) = true) : PP (quote s) (quote s) :=
-  PP.inert (quote_inert (safe_qstr h).1)
+def cleanStr (s : Str) : Bool := !s.any (fun c => c == 34 || c == 92)
 
-theorem pp_attrs : ∀ {a : Attrs}, (attrAtoms a).all Atom.safe = true → ∀ x ∈ a.map renderAttr, PP x x
-  | [], _, x, hx => by simp at hx
-  | (k, v) :: r, h, x, hx => by
-    simp only [attrAtoms, List.all_cons, Bool.and_eq_true] at h
-    simp only [List.map_cons, List.mem_cons] at hx
-    rcases hx with rfl | hx
-    · exact ((pp_quote h.1).append pp_colon).append (pp_quote h.2.1)
-    · exact pp_attrs h.2.2 x hx
+def Atom.prepassOK : Atom → Bool
+  | .key s => cleanStr s
+  | .date t => cleanStr t
+  | _ => true
 
-theorem pp_renderAttrs {a : Attrs} (h : (attrAtoms a).all Atom.safe = true) : PP (renderAttrs a) (renderAttrs a) :=
-  pp_joinWith pp_comma (forall₂_self (fun x hx => pp_attrs h x (mem_sortStrs.mp hx)))
+theorem litBody_of_cleanStr {s : Str} (h : cleanStr s = true) : litBody s = true :=
+  litBody_of_clean (fun c hc => by
+    simp only [cleanStr, Bool.not_eq_true'] at h
+    have := (List.any_eq_false.mp h) c hc
+    simpa using this)
 
-theorem pp_textNode {n : TextNode} (h : (textNodeAtoms n).all Atom.safe = true) :
-    PP (marshalTextNode n) (marshalTextNode n) := by
-  simp only [textNodeAtoms, List.all_cons, Bool.and_eq_true] at h
+theorem cleanStr_of_raw {s : Str} (h : s.any keyNeedsEscape = false) : cleanStr s = true := by
+  simp only [cleanStr, Bool.not_eq_true']
+  apply List.any_eq_false.mpr
+  intro c hc
+  have := (List.any_eq_false.mp h) c hc
+  simp only [keyNeedsEscape, Bool.or_eq_true, beq_iff_eq, decide_eq_true_eq] at this
+  simp only [Bool.or_eq_true, beq_iff_eq]
+  omega
+
+theorem prepassOK_of_safe {a : Atom} (h : a.safe = true) : a.prepassOK = true := by
+  cases a with
+  | key s => exact cleanStr_of_raw (safe_key h)
+  | date t => exact cleanStr_of_raw (date_raw (safe_date h))
+  | _ => rfl
+
+theorem all_prepassOK_of_safe {l : List Atom} (h : l.all Atom.safe = true) : l.all Atom.prepassOK = true :=
+  List.all_eq_true.mpr (fun a ha => prepassOK_of_safe ((List.all_eq_true.mp h) a ha))
+
+theorem all_ok_append {l₁ l₂ : List Atom} (h : (l₁ ++ l₂).all Atom.prepassOK = true) :
+    l₁.all Atom.prepassOK = true ∧ l₂.all Atom.prepassOK = true := by
+  simpa [List.all_append] using h
+
+/-! ### strings, attributes, text runs, trees: unconditional -/
+
+theorem pp_quote (s : Str) : PP (quote s) (quote s) := Good.quote s
+
+theorem pp_attrs (a : Attrs) : ∀ x ∈ a.map renderAttr, PP x x := by
+  intro x hx
+  obtain ⟨p, _, rfl⟩ := List.mem_map.mp hx
+  exact ((pp_quote p.1).append pp_colon).append (pp_quote p.2)
+
+theorem pp_renderAttrs (a : Attrs) : PP (renderAttrs a) (renderAttrs a) :=
+  pp_joinWith pp_comma (forall₂_self (fun x hx => pp_attrs a x (mem_sortStrs.mp hx)))
+
+theorem pp_textNode (n : TextNode) : PP (marshalTextNode n) (marshalTextNode n) := by
   simp only [marshalTextNode]
   split
-  · exact (pp_val.append (pp_quote h.1)).append pp_rbrace
-  · exact (((pp_val.append (pp_quote h.1)).append pp_attrsOpen).append (pp_renderAttrs h.2)).append pp_rbrace2
+  · exact (pp_val.append (pp_quote n.val)).append pp_rbrace
+  · exact (((pp_val.append (pp_quote n.val)).append pp_attrsOpen).append (pp_renderAttrs n.attrs)).append pp_rbrace2
 
-theorem pp_textNodes : ∀ {ns : List TextNode}, (textAtoms ns).all Atom.safe = true →
-    ∀ x ∈ ns.map marshalTextNode, PP x x
-  | [], _, x, hx => by simp at hx
-  | n :: r, h, x, hx => by
-    obtain ⟨h1, h2⟩ := all_safe_append (by simpa [textAtoms] using h)
-    simp only [List.map_cons, List.mem_cons] at hx
-    rcases hx with rfl | hx
-    · exact pp_textNode h1
-    · exact pp_textNodes h2 x hx
-
-/-! ### trees -/
+theorem pp_textNodes (ns : List TextNode) : ∀ x ∈ ns.map marshalTextNode, PP x x := by
+  intro x hx
+  obtain ⟨n, _, rfl⟩ := List.mem_map.mp hx
+  exact pp_textNode n
 
 /-- `marshalTree` without its leading `{"type":` -/
 def treeRest : TreeNode → Str
@@ -368,79 +388,78 @@ theorem marshalTree_eq (r : TreeNode) : marshalTree r = cp%"{\"type\":" ++ treeR
   · split <;> simp [List.append_assoc]
 
 mutual
-theorem pp_treeRest : ∀ (r : TreeNode), (treeAtoms r).all Atom.safe = true → PP (treeRest r) (treeRest r)
-  | .mk ty v a c, h => by
-    simp only [treeAtoms, List.all_cons, Bool.and_eq_true] at h
-    obtain ⟨hty, hv, hrest⟩ := h
-    obtain ⟨ha, hc⟩ := all_safe_append hrest
+theorem pp_treeRest : ∀ (r : TreeNode), PP (treeRest r) (treeRest r)
+  | .mk ty v a c => by
     have hkids : PP (joinWith [44] (marshalTreeList c)) (joinWith [44] (marshalTreeList c)) :=
-      pp_joinWith pp_comma (pp_treeList c hc)
+      pp_joinWith pp_comma (pp_treeList c)
     simp only [treeRest]
     split
-    · exact (((pp_quote hty).append pp_value).append (pp_quote hv)).append pp_rbrace
+    · exact (((pp_quote ty).append pp_value).append (pp_quote v)).append pp_rbrace
     · split
-      · exact (((pp_quote hty).append pp_children).append hkids).append pp_childrenClose
-      · exact (((((pp_quote hty).append pp_attrsOpen).append (pp_renderAttrs ha)).append pp_attrsChildren).append
+      · exact (((pp_quote ty).append pp_children).append hkids).append pp_childrenClose
+      · exact (((((pp_quote ty).append pp_attrsOpen).append (pp_renderAttrs a)).append pp_attrsChildren).append
           hkids).append pp_childrenClose
-theorem pp_treeList : ∀ (c : List TreeNode), (treeAtomsList c).all Atom.safe = true →
-    PPList (marshalTreeList c) (marshalTreeList c)
-  | [], _ => .nil
-  | x :: r, h => by
-    obtain ⟨h1, h2⟩ := all_safe_append (by simpa [treeAtomsList] using h)
+theorem pp_treeList : ∀ (c : List TreeNode), PPList (marshalTreeList c) (marshalTreeList c)
+  | [] => .nil
+  | x :: r => by
     simp only [marshalTreeList]
-    refine .cons ?_ (pp_treeList r h2)
+    refine .cons ?_ (pp_treeList r)
     rw [marshalTree_eq]
-    exact pp_type.append (pp_treeRest x h1)
+    exact pp_type.append (pp_treeRest x)
 end
 
 /-! ### the main statement of part A -/
 
-theorem pp_counter {c : Counter} (h : (atoms (.counter c)).all Atom.safe = true) :
-    PP (marshalCounter c) (marshalPCounter c) := by
+theorem pp_counter (c : Counter) : PP (marshalCounter c) (marshalPCounter c) := by
   cases c with
-  | int n => exact (pp_counterInt.append (PP.inert (showInt_inert n))).append pp_close2
-  | long n => exact (pp_counterLong.append (PP.inert (showInt_inert n))).append pp_close2
-  | dedup n regs =>
-    simp only [atoms, List.all_cons, List.all_nil, Bool.and_true] at h
-    exact pp_dedup n regs (safe_dedup h)
+  | int n => exact (pp_counterInt.append (PP.inert (showInt_noQuote n) (showInt_inert n))).append pp_close2
+  | long n => exact (pp_counterLong.append (PP.inert (showInt_noQuote n) (showInt_inert n))).append pp_close2
+  | dedup n regs => exact pp_dedup n regs
+
+theorem dbl_noQuote {t : Str} (h : isJsonNumber t = true) : noQuote t = true := by
+  have hd := jNumber_digitEnd (isJsonNumber_spec h)
+  exact List.all_eq_true.mpr (fun c hc => by
+    have := (List.all_eq_true.mp hd.2.1) c hc
+    simp only [numChar, isDigit, Bool.or_eq_true, Bool.and_eq_true, decide_eq_true_eq, beq_iff_eq] at this
+    simp; omega)
 
 mutual
-theorem pp_marshal : ∀ (v : Yson), v.wf = true → (atoms v).all Atom.safe = true → PP (marshal v) (marshalP v)
+theorem pp_marshal : ∀ (v : Yson), v.wf = true → (atoms v).all Atom.prepassOK = true → PP (marshal v) (marshalP v)
   | .null, _, _ => pp_null
   | .bool true, _, _ => pp_true
   | .bool false, _, _ => pp_false
-  | .double .nan, _, hs => by simp [atoms, not_safe_nan] at hs
-  | .double .posInf, _, hs => by simp [atoms, not_safe_posInf] at hs
-  | .double .negInf, _, hs => by simp [atoms, not_safe_negInf] at hs
+  | .double .nan, _, _ => pp_nan
+  | .double .posInf, _, _ => pp_posInf
+  | .double .negInf, _, _ => pp_negInf
   | .double (.fin t), hw, _ => by
     simp only [Yson.wf] at hw
-    exact PP.inert (dbl_inert hw)
-  | .str s, _, hs => by
-    simp only [atoms, List.all_cons, List.all_nil, Bool.and_true] at hs
-    exact pp_quote hs
-  | .int n, _, _ => (pp_int.append (PP.inert (showInt_inert n))).append pp_close
-  | .long n, _, _ => (pp_long.append (PP.inert (showInt_inert n))).append pp_close
+    exact PP.inert (dbl_noQuote hw) (dbl_inert hw)
+  | .str s, _, _ => pp_quote s
+  | .int n, _, _ => (pp_int.append (PP.inert (showInt_noQuote n) (showInt_inert n))).append pp_close
+  | .long n, _, _ => (pp_long.append (PP.inert (showInt_noQuote n) (showInt_inert n))).append pp_close
   | .bytes b, _, _ => by
-    have : marshal (.bytes b) = cp%"BinData(\"" ++ (b64Encode b ++ [34]) ++ cp%")" := by simp [marshal]
-    rw [this]
-    exact (pp_bindata.append (PP.inert (b64q_inert b))).append pp_close
+    have h1 : marshal (.bytes b) = cp%"BinData(" ++ (34 :: (b64Encode b ++ [34])) ++ cp%")" := by simp [marshal]
+    have h2 : marshalP (.bytes b) = cp%"{\"type\":\"BinData\",\"value\":" ++ (34 :: (b64Encode b ++ [34])) ++ cp%"}" := by
+      simp [marshalP]
+    rw [h1, h2]
+    exact (pp_bindata.append (PP.name (litBody_of_raw (b64_raw b)))).append pp_close
   | .date t, _, hs => by
-    simp only [atoms, List.all_cons, List.all_nil, Bool.and_true] at hs
-    have : marshal (.date t) = cp%"Date(\"" ++ (t ++ [34]) ++ cp%")" := by simp [marshal]
-    rw [this]
-    exact (pp_date.append (PP.inert (dateq_inert (safe_date hs)))).append pp_close
-  | .counter c, _, hs => pp_counter hs
-  | .text ns, _, hs => by
-    simp only [atoms] at hs
-    exact (pp_text.append (pp_joinWith pp_comma (forall₂_self (pp_textNodes hs)))).append pp_textClose
-  | .tree r, _, hs => by
-    simp only [atoms] at hs
+    simp only [atoms, List.all_cons, List.all_nil, Bool.and_true, Atom.prepassOK] at hs
+    have h1 : marshal (.date t) = cp%"Date(" ++ (34 :: (t ++ [34])) ++ cp%")" := by simp [marshal]
+    have h2 : marshalP (.date t) = cp%"{\"type\":\"Date\",\"value\":" ++ (34 :: (t ++ [34])) ++ cp%"}" := by
+      simp [marshalP]
+    rw [h1, h2]
+    exact (pp_date.append (PP.name (litBody_of_cleanStr hs))).append pp_close
+  | .counter c, _, _ => pp_counter c
+  | .text ns, _, _ =>
+    (pp_text.append (pp_joinWith pp_comma (forall₂_self (pp_textNodes ns)))).append pp_textClose
+  | .tree r, _, _ => by
     have h1 : marshal (.tree r) = cp%"Tree({\"type\":" ++ treeRest r ++ cp%")" := by
       simp [marshal, marshalTree_eq]
     have h2 : marshalP (.tree r) = cp%"{\"type\":\"Tree\",\"value\":{\"type\":" ++ treeRest r ++ cp%"}" := by
       simp [marshalP, marshalTree_eq]
     rw [h1, h2]
-    exact (pp_tree.append (pp_treeRest r hs)).append pp_close
+    exact (pp_tree.append (pp_treeRest r)).append pp_close
   | .arr xs, hw, hs => by
     simp only [Yson.wf] at hw
     simp only [atoms] at hs
@@ -448,28 +467,28 @@ theorem pp_marshal : ∀ (v : Yson), v.wf = true → (atoms v).all Atom.safe = t
   | .obj kvs, hw, hs => by
     simp only [Yson.wf, Bool.and_eq_true] at hw
     simp only [atoms] at hs
-    obtain ⟨_, hs2⟩ := all_safe_append hs
+    obtain ⟨_, hs2⟩ := all_ok_append hs
     exact (pp_lbrace.append (pp_joinWith pp_comma (pp_marshalKvs kvs hw.2 hs2))).append pp_rbrace
-theorem pp_marshalList : ∀ (xs : List Yson), Yson.wfList xs = true → (atomsList xs).all Atom.safe = true →
+theorem pp_marshalList : ∀ (xs : List Yson), Yson.wfList xs = true → (atomsList xs).all Atom.prepassOK = true →
     PPList (marshalList xs) (marshalPList xs)
   | [], _, _ => .nil
   | x :: r, hw, hs => by
     simp only [Yson.wfList, Bool.and_eq_true] at hw
-    obtain ⟨hs1, hs2⟩ := all_safe_append (by simpa [atomsList] using hs)
+    have hs' : (atoms x ++ atomsList r).all Atom.prepassOK = true := by simpa only [atomsList] using hs
+    obtain ⟨hs1, hs2⟩ := all_ok_append hs'
     exact .cons (pp_marshal x hw.1 hs1) (pp_marshalList r hw.2 hs2)
-theorem pp_marshalKvs : ∀ (kvs : List (Str × Yson)), Yson.wfKvs kvs = true → (atomsKvs kvs).all Atom.safe = true →
+theorem pp_marshalKvs : ∀ (kvs : List (Str × Yson)), Yson.wfKvs kvs = true → (atomsKvs kvs).all Atom.prepassOK = true →
     PPList (marshalKvs kvs) (marshalPKvs kvs)
   | [], _, _ => .nil
   | (k, x) :: r, hw, hs => by
     simp only [Yson.wfKvs, Bool.and_eq_true] at hw
-    simp only [atomsKvs, List.all_cons, Bool.and_eq_true] at hs
-    obtain ⟨hs1, hs2⟩ := all_safe_append hs.2
-    have hk := safe_key hs.1
-    have hq : ∀ c ∈ k, c ≠ 34 := by
-      intro c hc h34
-      have := (List.any_eq_false.mp hk.2) c hc
-      simp [keyNeedsEscape, h34] at this
-    have hkp : PP (keyPiece k) (keyPiece k) := PP.inert (key_inert hk.1 hq)
+    have hs' : (Atom.key k).prepassOK = true ∧ (atoms x ++ atomsKvs r).all Atom.prepassOK = true := by
+      simpa only [atomsKvs, List.all_cons, Bool.and_eq_true] using hs
+    obtain ⟨hs1, hs2⟩ := all_ok_append hs'.2
+    have hkp : PP (keyPiece k) (keyPiece k) := by
+      have e : keyPiece k = (34 :: (k ++ [34])) ++ [58] := by simp [keyPiece]
+      rw [e]
+      exact (PP.name (litBody_of_cleanStr hs'.1)).append pp_colon
     have : ([34] ++ k ++ [34, 58] ++ marshal x) = keyPiece k ++ marshal x := by simp [keyPiece]
     simp only [marshalKvs, marshalPKvs, this]
     exact .cons (hkp.append (pp_marshal x hw.1.2 hs1)) (pp_marshalKvs r hw.2 hs2)
